@@ -1617,6 +1617,8 @@ class Interp:
             return SymSet(t.k, lambda k, a=has_arr: z3.Select(a, k), card)
         if isinstance(t, S.Abstract):
             return AbstractObj(t.name, name)
+        if isinstance(t, S._RngT):
+            return ExtObj("rng")
         raise Unsupported("fresh value of type %r" % (t,))
 
     def lit_value(self, v):
